@@ -48,19 +48,19 @@ type blockT struct {
 }
 
 type caseT struct {
-	ID      int      `json:"id"`
-	Class   string   `json:"class"` // framing | corrupt
-	File    int      `json:"file"`  // index of the pristine file
-	FFS     int64    `json:"ffs"`
-	RO      int64    `json:"ro"`
-	RS      int64    `json:"rs"`
-	Blocks  []blockT `json:"blocks"`
-	Varied  string   `json:"varied"`
+	ID     int      `json:"id"`
+	Class  string   `json:"class"` // framing | corrupt
+	File   int      `json:"file"`  // index of the pristine file
+	FFS    int64    `json:"ffs"`
+	RO     int64    `json:"ro"`
+	RS     int64    `json:"rs"`
+	Blocks []blockT `json:"blocks"`
+	Varied string   `json:"varied"`
 	// corrupt
-	Mut     string `json:"mut"` // flip | burst | trunc | extend | splice
-	Pos     int    `json:"pos"`
-	Len     int    `json:"len"`
-	Seed    int64  `json:"seed"`
+	Mut  string `json:"mut"` // flip | burst | trunc | extend | splice
+	Pos  int    `json:"pos"`
+	Len  int    `json:"len"`
+	Seed int64  `json:"seed"`
 }
 
 type tupleObs struct {
@@ -69,36 +69,36 @@ type tupleObs struct {
 }
 
 type obsT struct {
-	ID        int     `json:"id"`
-	Class     string  `json:"class"`
-	Varied    string  `json:"varied"`
-	Mut       string  `json:"mut"`
-	Comp      string  `json:"comp"`
+	ID        int            `json:"id"`
+	Class     string         `json:"class"`
+	Varied    string         `json:"varied"`
+	Mut       string         `json:"mut"`
+	Comp      string         `json:"comp"`
 	T         map[string]any `json:"t"` // clamped tuple for the specification
-	FFS0      bool    `json:"ffs_pristine"`
-	Accept    bool    `json:"accept"`
-	OOB       int     `json:"oob_reads"`   // reads/seeks outside [0, file size]
-	MaxRead   int64   `json:"max_read"`
-	Alloc     int64   `json:"alloc"`
-	FileSize  int64   `json:"file_size"`
-	Panic     string  `json:"panic"`
-	HelperErr int     `json:"helper_errs"`
-	HelperOK  int     `json:"helper_ok"`
-	Rows      int     `json:"rows"`
-	Outside   int     `json:"outside"` // rows returned that were never written
-	QErr      bool    `json:"qerr"`
-	Exact     bool    `json:"exact"`
+	FFS0      bool           `json:"ffs_pristine"`
+	Accept    bool           `json:"accept"`
+	OOB       int            `json:"oob_reads"` // reads/seeks outside [0, file size]
+	MaxRead   int64          `json:"max_read"`
+	Alloc     int64          `json:"alloc"`
+	FileSize  int64          `json:"file_size"`
+	Panic     string         `json:"panic"`
+	HelperErr int            `json:"helper_errs"`
+	HelperOK  int            `json:"helper_ok"`
+	Rows      int            `json:"rows"`
+	Outside   int            `json:"outside"` // rows returned that were never written
+	QErr      bool           `json:"qerr"`
+	Exact     bool           `json:"exact"`
 	// pristine-metadata pass (corrupt class)
-	PRows     int     `json:"p_rows"`
-	POutside  int     `json:"p_outside"`
-	PQErr     bool    `json:"p_qerr"`
-	PExact    bool    `json:"p_exact"`
-	Changed   bool    `json:"changed"` // the mutation changed the bytes
+	PRows    int  `json:"p_rows"`
+	POutside int  `json:"p_outside"`
+	PQErr    bool `json:"p_qerr"`
+	PExact   bool `json:"p_exact"`
+	Changed  bool `json:"changed"` // the mutation changed the bytes
 	// MetaStore-held filter framing pass (framing class, filter fields only)
-	MSPanic   string  `json:"ms_panic"`
-	MSOOB     int     `json:"ms_oob"`
-	MSOutside int     `json:"ms_outside"`
-	Stdio     int     `json:"stdio"`
+	MSPanic   string `json:"ms_panic"`
+	MSOOB     int    `json:"ms_oob"`
+	MSOutside int    `json:"ms_outside"`
+	Stdio     int    `json:"stdio"`
 }
 
 // ---------------------------------------------------------------------------
